@@ -16,24 +16,30 @@ def put(name, text):
 for r in ("r2", "r3", "r4"):
     out = subprocess.run([sys.executable, os.path.join(V, "tools", "seed_table.py"), r], capture_output=True, text=True).stdout
     put("seed-table " + r, out)
-rows, quiet, alarm, inp, other = [], 0, 0, 0, 0
-for m in sorted(glob.glob(os.path.join(V, "harmless", "*", "meta.json"))):
-    j = json.load(open(m))
-    hid = os.path.basename(os.path.dirname(m))
-    if "checks" not in j:
-        other += 1
-        rows.append("| %s | %s | not run: %s |" % (hid, re.sub(r"\s+", " ", str(j.get("summary", "")))[:150].replace("|", "/"), str(j.get("error", "?"))[:60]))
-        continue
-    st = "quiet (exit 0)"
-    if j.get("alarm_with_input"):
-        st = "ALARM WITH INPUT"; inp += 1
-    elif j.get("alarm"):
-        st = "tie broken (no-failing-input-found)"; alarm += 1
-    else:
-        quiet += 1
-    rows.append("| %s | %s | %s |" % (hid, re.sub(r"\s+", " ", str(j.get("summary", "")))[:150].replace("|", "/"), st))
-put("harmless-table", "Result of the final run: %d quiet, %d tie-broken reports without input, %d reports with an input, %d not run.\n\n"
-    "| Patch | Change | Check of that property |\n|---|---|---|\n" % (quiet, alarm, inp, other) + "\n".join(rows))
+def harmless_table(sub, marker):
+  rows, quiet, alarm, inp, other = [], 0, 0, 0, 0
+  for m in sorted(glob.glob(os.path.join(V, sub, "*", "meta.json"))):
+      j = json.load(open(m))
+      hid = os.path.basename(os.path.dirname(m))
+      if "checks" not in j:
+          other += 1
+          rows.append("| %s | %s | not run: %s |" % (hid, re.sub(r"\s+", " ", str(j.get("summary", "")))[:150].replace("|", "/"), str(j.get("error", "?"))[:60]))
+          continue
+      st = "quiet (exit 0)"
+      if j.get("alarm_with_input"):
+          st = "ALARM WITH INPUT"; inp += 1
+      elif j.get("alarm"):
+          st = "tie broken (no-failing-input-found)"; alarm += 1
+      else:
+          quiet += 1
+      rows.append("| %s | %s | %s |" % (hid, re.sub(r"\s+", " ", str(j.get("summary", "")))[:150].replace("|", "/"), st))
+  put(marker, "Result of the final run: %d quiet, %d tie-broken reports without input, %d reports with an input, %d not run.\n\n"
+      "| Patch | Change | Check of that property |\n|---|---|---|\n" % (quiet, alarm, inp, other) + "\n".join(rows))
+  return quiet, alarm, inp, other
+
+
+quiet, alarm, inp, other = harmless_table("harmless", "harmless-table")
+q2, a2, i2, o2 = harmless_table("harmless2", "harmless2-table")
 # final state per property
 rows = []
 for i in range(1, 21):
@@ -42,7 +48,7 @@ for i in range(1, 21):
     cov = ev["coverage"]
     seeds = sorted(glob.glob(os.path.join(V, "seeded", pid + "-*", "meta.json")))
     winp = sum(1 for m in seeds if json.load(open(m)).get("detected_with_input_by"))
-    harm = sorted(glob.glob(os.path.join(V, "harmless", pid + "-h*", "meta.json")))
+    harm = sorted(glob.glob(os.path.join(V, "harmless", pid + "-h*", "meta.json"))) + sorted(glob.glob(os.path.join(V, "harmless2", pid + "-g*", "meta.json")))
     hq = sum(1 for m in harm if "checks" in json.load(open(m)) and not json.load(open(m)).get("alarm"))
     known = sum(1 for e in json.load(open(os.path.join(V, "known_findings.json")))["findings"] if e["property"] == pid and e["status"] == "known")
     fixed = sum(1 for e in json.load(open(os.path.join(V, "known_findings.json")))["findings"] if e["property"] == pid and e["status"] == "fixed")
@@ -51,4 +57,4 @@ for i in range(1, 21):
 put("final-table", "| Prop | property theorems (props/) | Qed-closed statements in the closure | evaluations (quick) | quick wall s | seeded changes caught with input | "
     "behaviour-preserving patches quiet | findings |\n|---|---|---|---|---|---|---|---|\n" + "\n".join(rows))
 open(p, "w").write(s)
-print("tables refreshed: harmless quiet=%d alarm=%d with_input=%d other=%d" % (quiet, alarm, inp, other))
+print("tables refreshed: harmless quiet=%d alarm=%d with_input=%d other=%d; round 2 quiet=%d alarm=%d with_input=%d" % (quiet, alarm, inp, other, q2, a2, i2))
